@@ -18,7 +18,9 @@ LEVEL_TEXT = ('Generated and repository program units (and scheduler-enriched un
               'unpickled with the real __getstate__/__setstate__ code; the copy must generate the same code, compare == to the '
               'original, every typed symbol that was attached to a scope inside the pickled unit must be attached to the '
               'corresponding scope of the unpickled unit with an equal type dump, symbol tables must be equal, call links must '
-              'survive, a second round trip must be stable and the original must be unchanged.')
+              'survive, a second round trip must be stable and the original must be unchanged. Contained routines of the copy '
+              'must be chained (scope and symbol table) to the unpickled enclosing unit and resolve host-associated names '
+              '(get_type, lookup, fresh Variable(name, scope=routine)) as the original does.')
 LEVEL_NOTE = ('Sampling, not exhaustive. Equality of types is judged on a canonical dump of SymbolAttributes (dtype, kind, shape, '
               'intent, links by name); object identity of linked procedures is not required, only that a link exists and has the '
               'same name. Cast expressions (REAL(x, kind)) are confined to a slice because unpickling them raises (known finding).')
@@ -33,7 +35,8 @@ MIN_NONTRIVIAL = {'quick': 180, 'thorough': 2200}
 ANCHORS = ['loki/subroutine.py', 'loki/module.py', 'loki/sourcefile.py', 'loki/types/symbol_table.py',
            'loki/ir/nodes/abstract_nodes.py', 'loki/program_unit.py']
 REQUIRED_REACH = ['__getstate__', '__setstate__']
-REQUIRED_COUNTERS = {'round_trips': 100, 'symbols_compared': 3000, 'eq_checks': 100, 'enriched_calls_checked': 3}
+REQUIRED_COUNTERS = {'round_trips': 100, 'symbols_compared': 3000, 'eq_checks': 100, 'enriched_calls_checked': 3,
+                     'host_lookups': 300}
 ASSUMPTIONS = ['canonical SymbolAttributes dumps decide type equality',
                'a pickled routine loses its enclosing module (documented: _parent is not pickled); only symbols whose scope lies '
                'inside the pickled unit are required to be re-attached']
@@ -417,7 +420,116 @@ def round_trip(obj, label, res, witness, second):
             what = "KeyError-_ast" if isinstance(e, KeyError) and '_ast' in str(e) else type(e).__name__
             viol(f'pickle:second-round-trip-exception:{what}', f'{type(e).__name__}: {str(e)[:200]}',
                  traceback=traceback.format_exc()[-1000:])
+    # ---- host association: contained routines of the copy resolve names of the enclosing units as the original does
+    # (last: a failed look-up makes Loki write DEFERRED entries into the copy's tables)
+    try:
+        host_resolution(obj, copy, viol, cnt)
+    except CaseTimeout:
+        raise
+    except Exception as e:
+        viol(f'pickle:host-lookup-unobservable:{type(e).__name__}', str(e)[:200], traceback=traceback.format_exc()[-1000:])
     return n
+
+
+def host_resolution(obj, copy, viol, cnt):
+    """
+    For every routine contained in a unit of the pickled object: the chaining of scope and symbol table to the enclosing
+    unit, recursive look-ups (get_type / symbol_attrs.lookup) of names declared in the enclosing units, and the class and
+    type of a fresh Variable(name, scope=routine) are compared between original and copy.  Procedure links are
+    disregarded here (their loss is reported by the link checks).
+    """
+    from loki.expression import symbols as sym
+    from loki.program_unit import ProgramUnit
+    tree_o, tree_c = us.scope_tree(obj), us.scope_tree(copy)
+    if [p for p, _ in tree_o] != [p for p, _ in tree_c]:
+        return                      # different structure: reported by the table comparison
+    own_o, own_c = us.own_map(tree_o), us.own_map(tree_c)
+
+    def dump(t, own):
+        return None if t is None else norm_links(us.attr_dump(t, own), 'drop')
+
+    chain, lookups, fresh, known_member = {}, {}, {}, []
+    for (p, s), (_, s2) in zip(tree_o, tree_c):
+        if not isinstance(s, ProgramUnit) or type(s2) is not type(s):
+            continue
+        subs, subs2 = tuple(getattr(s, 'subroutines', ()) or ()), tuple(getattr(s2, 'subroutines', ()) or ())
+        if len(subs) != len(subs2):
+            continue
+        encl = type(s).__name__
+        for r, r2 in zip(subs, subs2):
+            if str(r.name).lower() != str(r2.name).lower() or r.parent is not s:
+                continue
+            cnt['contained_routines_checked'] = cnt.get('contained_routines_checked', 0) + 1
+            where = f'{r2.name} in {p}'
+            if encl != 'Module' and r2.parent is None:
+                # known mechanism: Subroutine.__setstate__ does not reset the parent of member procedures
+                known_member.append(f'{where}: member.parent is None after the round trip')
+                continue
+            if r2.parent is not s2:
+                pp = own_c.get(id(r2.parent), 'None' if r2.parent is None else 'a scope outside the copy')
+                chain.setdefault(f'scope-parent:{encl}', []).append(f'{where}: routine.parent is {pp}')
+            if r.symbol_attrs.parent is s.symbol_attrs and r2.symbol_attrs.parent is not s2.symbol_attrs:
+                tp = r2.symbol_attrs.parent
+                desc = 'None' if tp is None else next((q for q, x in tree_c if x.symbol_attrs is tp), 'a table outside the copy')
+                chain.setdefault(f'table-parent:{encl}', []).append(
+                    f'{where}: routine.symbol_attrs.parent is {desc}, expected the table of {p}')
+            # names declared in the enclosing units inside the pickled object, host-associated ones first
+            names, anc = [], s
+            while anc is not None and id(anc) in own_o:
+                names += [str(k).lower() for k in anc.symbol_attrs.keys() if '%' not in str(k)]
+                anc = anc.parent
+            names = sorted(set(names))
+            hosted = [x for x in names if x not in r.symbol_attrs]
+            pick = hosted if len(hosted) >= 3 else hosted + [x for x in names if x in r.symbol_attrs]
+            if len(pick) > 8:
+                step = len(pick) / 8.0
+                pick = [pick[int(i * step)] for i in range(8)]
+            for name in pick:
+                t1 = r.symbol_attrs.lookup(name)
+                if t1 is None:
+                    continue
+                cnt['host_lookups'] = cnt.get('host_lookups', 0) + 1
+                d1 = dump(t1, own_o)
+                try:
+                    g1, g2 = dump(r.get_type(name, fail=False), own_o), dump(r2.get_type(name, fail=False), own_c)
+                    l2 = dump(r2.symbol_attrs.lookup(name), own_c)
+                except CaseTimeout:
+                    raise
+                except Exception as e:
+                    lookups.setdefault(encl, []).append(f'{where}: look-up of {name} raised {type(e).__name__}')
+                    continue
+                if g2 != g1 or l2 != d1:
+                    lookups.setdefault(encl, []).append(
+                        f'{where}: get_type({name}) -> {g2}, lookup -> {l2}; original: {g1}, {d1}')
+            for name in pick[:4]:
+                if r.symbol_attrs.lookup(name) is None:
+                    continue
+                cnt['fresh_symbols'] = cnt.get('fresh_symbols', 0) + 1
+                try:
+                    v1 = sym.Variable(name=name, scope=r)
+                    f1 = (type(v1).__name__, dump(v1.type, own_o))
+                except CaseTimeout:
+                    raise
+                except Exception:
+                    continue          # the original does not allow it either: nothing to compare
+                try:
+                    v2 = sym.Variable(name=name, scope=r2)
+                    f2 = (type(v2).__name__, dump(v2.type, own_c))
+                except CaseTimeout:
+                    raise
+                except Exception as e:
+                    f2 = (f'raised {type(e).__name__}', None)
+                if f1 != f2:
+                    fresh.setdefault(encl, []).append(f'{where}: Variable({name}, scope=routine) is {f2}, original gives {f1}')
+    if known_member:
+        viol('pickle:scope:not-reattached:member-routine', f'{known_member[:3]} ({len(known_member)} members)',
+             members=known_member[:20])
+    for k, lst in sorted(chain.items()):
+        viol(f'pickle:host-chain:{k}', f'{lst[:3]} ({len(lst)} routines)', routines=lst[:20])
+    for k, lst in sorted(lookups.items()):
+        viol(f'pickle:host-lookup:type-differs:{k}', f'{lst[:3]} ({len(lst)} look-ups)', lookups=lst[:20])
+    for k, lst in sorted(fresh.items()):
+        viol(f'pickle:host-lookup:fresh-symbol:{k}', f'{lst[:3]} ({len(lst)} symbols)', symbols=lst[:20])
 
 
 def scheduler_project(text, rng, ctx, idx):
